@@ -50,6 +50,16 @@ def run(ck):
                             for tail in (b"", b"\nx = 1"):
                                 fh.write(json.dumps({"s": list(b"x = " + op3 + body + b"".join(closer) + tail)}) + "\n")
                                 n += 1
+        # quote characters INSIDE a multi-line literal: a run of one or two quotes of either kind, followed by a piece of every
+        # class (ASCII, line break, backslash, multi-byte character, invalid byte), then closed or left open
+        for op3 in (DQ3, SQ3):
+            for before in [b""] + tpieces:
+                for nq in (1, 2):
+                    for run in itertools.product([b'"', b"'"], repeat=nq):
+                        for after in tpieces + ["世".encode(), "😀".encode()]:
+                            for close in (op3, b""):
+                                fh.write(json.dumps({"s": list(b"x = " + op3 + before + b"".join(run) + after + close)}) + "\n")
+                                n += 1
         # longer inputs over a small alphabet of the interesting classes
         small = [b'"', b"'", b"\\", b"\n", b"a", b"0", b"x", b".", b"`", b"#", b" ", b"("]
         for row in genlex.gen_inputs(4 if q else 5, small):
